@@ -89,7 +89,15 @@ def _lst(depth=2, allow_str=True):
         lambda t: ("l", t[1]) if t[0] == "l" else ("z", t[1], t[2]))
 
 
-LST = _lst()
+def _mat():
+    row = st.tuples(st.sampled_from(["l", "l", "l", "z"]), st.lists(st.integers(-3, 9), max_size=3), st.integers(0, 2)).map(
+        lambda t: ("l", t[1]) if t[0] == "l" else ("z", t[1], t[2]))
+    return st.tuples(st.sampled_from(["l", "l", "z"]), st.lists(row, min_size=1, max_size=3), st.integers(0, 2)).map(
+        lambda t: ("l", t[1]) if t[0] == "l" else ("z", t[1], t[2]))
+
+
+MAT = _mat()           # matrices (square, tall, wide, ragged) of small ints
+LST = st.one_of(_lst(), _lst(), _lst(), MAT)
 ANY = st.one_of(NUM, STR, LST, LST)
 BY_TYPE = {"num": NUM, "str": STR, "lst": LST, "fun": FUN, "any": ANY}
 
